@@ -49,6 +49,7 @@ class Client(kernel.Actor):
         if self.frames and self.frames[-1]["t_done"] is None:
             self.frames[-1]["t_done"] = now
             self.frames[-1]["wall_done"] = self.sim.clock.wall()
+            self.frames[-1]["reg_after"] = list(self.world.registry().get(self.idx, []))
         if self.disconnected or self.closed is not None:
             raise falcon.WebSocketDisconnected()
         # a frame that is already buffered in the socket is returned without yielding to the loop
@@ -120,7 +121,8 @@ class Client(kernel.Actor):
             it = ["send", text]
         if it[0] == "send":
             self.frames.append({"i": self.pos - 1, "text": it[1], "t_deliver": self.sim.stamp(),
-                                "t_done": None, "wall_deliver": self.sim.clock.wall(), "wall_done": None})
+                                "t_done": None, "wall_deliver": self.sim.clock.wall(), "wall_done": None,
+                                "reg_before": list(self.world.registry().get(self.idx, [])), "reg_after": None})
             self.last_deliver_mono = self.sim.clock.mono
             self.recv_fut.set_result(it[1])
         elif it[0] == "disconnect":
